@@ -384,10 +384,31 @@ impl Prop for C10 {
         };
         let mut seq = gen_seq_case(rng, size, None);
         seq.index = IndexKind::Slice;
+        // very rarely: an insertion that can slide by more than 4096 items
+        // (old = B, new = B B, history: equal(B) insert(B))
+        let mut script = None;
+        if rng.below(if tier == Tier::Quick { 120_000 } else { 400_000 }) == 0 {
+            let (o, n) = crate::gen::gen_big_slide(rng);
+            let len = o.len();
+            seq.old_range = (0, len);
+            seq.new_range = (0, 2 * len);
+            seq.old = o;
+            seq.new = n;
+            script = Some(if rng.chance(1, 2) {
+                vec![Call::Equal(0, 0, len), Call::Insert(len, len, len)]
+            } else {
+                // the copy inserted in front, in two pieces
+                vec![
+                    Call::Insert(0, 0, len / 2),
+                    Call::Insert(0, len / 2, len - len / 2),
+                    Call::Equal(0, len, len),
+                ]
+            });
+        }
         Case {
             seq,
             script_seed: rng.next(),
-            script: None,
+            script,
             stack: *rng.pick(&[
                 Stack::Compact,
                 Stack::Replace,
